@@ -147,7 +147,7 @@ def _removal_restores_displaced(cx, b, rm):
         if c.primary.split("::")[-1] not in ("remove", "get", "remove_entry", "get_mut"):
             continue
         o = origin_of_operand(b, c.args[0]) if c.args else None
-        if not o or "recent_writes" in o.field_names() or not o.field_names():
+        if not o or oracle_roles(cx.f)["map"] in o.field_names() or not o.field_names():
             continue
         side.append(c)
     side_dom = [c for c in side if b.set_dominates([c.bb], rm.bb)]
@@ -158,7 +158,7 @@ def _removal_restores_displaced(cx, b, rm):
         if c.bb not in b.live or c.primary.split("::")[-1] != "insert" or not any(t.startswith("std::collections::HashMap::") for t in c.targets):
             continue
         o = origin_of_operand(b, c.args[0])
-        if "recent_writes" not in o.field_names() or len(c.args) < 3:
+        if oracle_roles(cx.f)["map"] not in o.field_names() or len(c.args) < 3:
             continue
         vo = origin_of_operand(b, c.args[2])
         if any(x in side_dom for x in vo.calls):
@@ -166,6 +166,38 @@ def _removal_restores_displaced(cx, b, rm):
     cx.note("rollback: removal at %s is guarded by a displaced-stamp lookup (%d) with %d restoring insert(s)" % (rm.where(), len(side_dom), len(restores)))
     # the restoring insert and the removal are alternatives (neither reaches the other)
     return bool(restores) and all(rm.bb not in b.reachable_after([r.bb]) and r.bb not in b.reachable_after([rm.bb]) or b.in_cycle(rm.bb) for r in restores)
+
+
+_ROLES = {}
+
+
+def oracle_roles(f):
+    """Names of the oracle's state fields by ROLE, discovered from the code (a renamed private field keeps its role):
+    `map`   = the HashMap that `check` looks every key up in,
+    `floor` = the scalar field `check` compares its start-sequence parameter (3rd) with."""
+    key = id(f)
+    if key in _ROLES:
+        return _ROLES[key]
+    b = f.body("CommitOracle::check")
+    mp = None
+    for c in b.calls:
+        if c.bb in b.live and c.names & {"std::collections::HashMap::get"} and c.args:
+            for own, nm in origin_of_operand(b, c.args[0]).fields:
+                if nm not in ("inner", "data", "0", "") and not nm.isdigit():
+                    mp = nm
+    floor = None
+    for i, j, lhs, rv, line in b.assigns():
+        if rv[0] == "bin" and rv[1] in ("Lt", "Le", "Gt", "Ge"):
+            sides = [origin_of_operand(b, rv[2]), origin_of_operand(b, rv[3])]
+            for x, y in (sides, sides[::-1]):
+                if any(pl == 3 for pl, _ in x.params) and not y.params and not any(c.names & {"std::collections::HashMap::get"} for c in y.calls):
+                    cand = [nm for own, nm in y.fields if nm not in ("inner", "data", "0", "") and not nm.isdigit() and nm != mp]
+                    if len(cand) == 1:
+                        floor = cand[0]
+    if mp is None or floor is None:
+        raise AnchorMissing("CommitOracle::check: conflict map / window floor fields not recognised (map=%s floor=%s)" % (mp, floor))
+    _ROLES[key] = {"map": mp, "floor": floor}
+    return _ROLES[key]
 
 
 @rule("C04", "C04.R5", "removals from the conflict map keep `every commit >= kept_since is recorded`")
@@ -183,7 +215,7 @@ def r5(cx):
             if meth not in ("remove", "retain", "clear", "remove_entry", "drain", "extract_if"):
                 continue
             o = origin_of_operand(body, c.args[0]) if c.args else None
-            if not o or "recent_writes" not in o.field_names():
+            if not o or oracle_roles(cx.f)["map"] not in o.field_names():
                 continue
             n += 1
             owner = cx.f.fn_of(body)
@@ -191,7 +223,7 @@ def r5(cx):
             raises = []
             for i, j, lhs, rv, line in owner.assigns():
                 fs = [p for p in lhs[1:] if isinstance(p, list) and p[0] == "f"]
-                if fs and fs[-1][2] == "kept_since":
+                if fs and fs[-1][2] == oracle_roles(cx.f)["floor"]:
                     raises.append(i)
             for cb in cx.f.closures_of(owner):
                 pass
@@ -254,7 +286,7 @@ def r6(cx):
     for c in look:
         cx.check(b.in_cycle(c.bb), "the conflict lookup runs once per key (inside the key loop)", "lookup-not-in-loop", c.where())
         o = origin_of_operand(b, c.args[0])
-        cx.check("recent_writes" in o.field_names(), "lookup consults recent_writes", "lookup-map", c.where())
+        cx.check(oracle_roles(cx.f)["map"] in o.field_names(), "lookup consults the conflict map", "lookup-map", c.where())
     # publish stamps every key
     pb = cx.f.body("CommitOracle::publish")
     ins = sites(cx, pb, "std::collections::HashMap::insert")
@@ -263,12 +295,13 @@ def r6(cx):
 
 
 def _kind(b, o):
-    if "kept_since" in o.field_names():
+    roles = oracle_roles(b.facts)
+    if roles["floor"] in o.field_names():
         return "kept_since"
     for (l, _) in o.params:
-        if b.local_name(l) == "start_seq":
+        if l == 3 or b.local_name(l) == "start_seq":
             return "start_seq"
-    if "recent_writes" in o.field_names() or any(c.names & {"std::collections::HashMap::get"} for c in o.calls):
+    if roles["map"] in o.field_names() or any(c.names & {"std::collections::HashMap::get"} for c in o.calls):
         return "committed"
     return None
 
@@ -425,7 +458,9 @@ def r8(cx):
                 for p in pl[1:]:
                     if isinstance(p, list) and p[0] == "f":
                         rd.add(p[2])
-        gen = (wr & rd) - {"kept_since", "recent_writes", "displaced", "commits_since_gc", "last_gc_oldest_active", "inner", "data", "0"}
+        roles = oracle_roles(f)
+        # (written by reset AND read by check, other than the window itself: map and floor)
+        gen = (wr & rd) - {roles["floor"], roles["map"], "inner", "data", "0"}
         ok = bool(gen) and ck.argc >= 4
     cx.check(ok, "the restore's oracle floor covers the start sequences of live transactions", "restore-window-misses-live-transactions", rs[0].where(),
              "restore_from_checkpoint resets the oracle with a floor computed from the restored files only (manifest last_sequence / replayed WAL): a transaction that began "
